@@ -428,7 +428,7 @@ Proof.
   destruct (fc =? 0) eqn:E0.
   all: eexists _, _, _; (split; [apply runT_O; cbn [redo]; rewrite S1; reflexivity|]).
   all: unfold finish_call; cbn [lc validate_utf8 set_err T andb st top stack s_state sv s_saved tstate_eqb negb err]; rewrite E0;
-       cbn [andb negb err set_err]; (split; [reflexivity|split; discriminate]).
+       cbn [andb negb err set_err]; rewrite ?orb_true_r; cbn [andb negb err set_err]; (split; [reflexivity|split; discriminate]).
 Qed.
 
 (* ---------------------------------------------------------------- control bytes in strings and names *)
